@@ -21,7 +21,7 @@
 From Coq Require Import ZArith List Bool.
 From Bermuda Require Import Model.Order Proofs.TriangleP.
 From Bermuda Require Import Model.Base Model.Basis Proofs.BasisEq Proofs.BasisTri Proofs.BasisP
-     Proofs.BasisSpec Proofs.BasisCanon.
+     Proofs.BasisSpec Proofs.BasisCanon Model.BasisPy.
 Import ListNotations.
 Local Open Scope Z_scope.
 
@@ -351,3 +351,18 @@ Proof.
   - apply comparableb_spec. vm_compute. reflexivity.
   - apply meta_separatedb_spec. vm_compute. reflexivity.
 Qed.
+
+(* ------------------------------------------------------------------ 8. grouping by Python == *)
+(* The code groups by Metadata.__eq__/__hash__ and writes the first metadata met for a row into
+   every result cell.  [to_incremental_py]/[to_cumulative_py] (Model/BasisPy.v) model that on
+   arbitrary inputs (equal-but-distinct Metadata objects: other detail-key order, 7 vs 7.0); the
+   correspondence check runs THEM against the implementation.  On inputs whose ==-metadata are
+   identical they are the functions of sections 1-7. *)
+Theorem C04_py_grouping_agrees : forall d t, meta_separated t ->
+  py_normalise t = t /\ to_incremental_py d t = to_incremental d t
+  /\ to_cumulative_py d t = to_cumulative d t.
+Proof.
+  intros d t H. split; [now apply py_normalise_separated|].
+  split; [now apply to_incremental_py_separated | now apply to_cumulative_py_separated].
+Qed.
+Print Assumptions C04_py_grouping_agrees.
